@@ -339,6 +339,38 @@ theorem atomic_prefix_old_or_new (old : Option Content) (chunks : List Content) 
     show (List.foldl (fun d c => aStep d (AStep.write c)) { final := old, temp := some "" } chunks).temp = _
     rw [h2]; simp
 
+/-- atomic_all_or_nothing under CONCURRENT puts of one path: two atomic puts (each with its own
+    temp file, as `os.CreateTemp` guarantees) interleaved in ANY way — after any number of steps
+    of any schedule, what a reader finds at the final path is the previous content, or the
+    complete content of the one put, or the complete content of the other; never a mixture,
+    never a prefix. -/
+theorem atomic_concurrent_old_or_new (old : Option Content) (ca cb : List Content) (sched : List Bool) (j : Nat) :
+    (concurrentPrefix false old ca cb sched j).final = old ∨
+    (concurrentPrefix false old ca cb sched j).final = some (joinContent ca) ∨
+    (concurrentPrefix false old ca cb sched j).final = some (joinContent cb) := by
+  unfold concurrentPrefix
+  exact merge2_good old ca cb _ sched _ _ _ (Nat.le_refl _) (winv_start ca) (winv_start cb) (Or.inl rfl) j
+
+/-- Why the temp name must be fresh per put: with one fixed temp name the second put truncates
+    the first one's data and the first then publishes a mixture. -/
+theorem shared_temp_counterexample :
+    (concurrentPrefix true (some "OLD") ["A1", "A2"] ["B1"] [true, true, false, false, true, true, true] 7).final
+      = some "B1A2" := by
+  simp [concurrentPrefix, atomicSteps, merge2, cStep]
+
+example : (concurrentPrefix false (some "OLD") ["A1", "A2"] ["B1"] [true, true, false, false, true, true, true] 7).final
+      = some "A1A2" := by
+  simp [concurrentPrefix, atomicSteps, merge2, cStep]
+
+/-- Recorded finding (`atomic-put-producer-failure-published`, not repaired: `WriteObjectCloser`
+    has no way to abort): when the producer of the content fails between Put and Close — no
+    Write fails — the deferred Close of the helpers publishes the truncated temp file.  The
+    theorems above quantify over Put / Write / Close / Rename failures and crashes, as the
+    property's quantifier does; this witness shows the all-or-nothing clause is false for
+    producer failures. -/
+theorem atomic_producer_failure_counterexample :
+    atomicProducerFail (some "OLD") ["AB", "CD"] 1 = (true, { final := some "AB", temp := none }) := by decide
+
 /-- By contrast a non-atomic put exposes truncated content (why the cache marker must be
     written atomically). -/
 theorem nonatomic_may_truncate :
